@@ -90,4 +90,26 @@ def run(ctx, chk):
         chk.cfg = cfg.name
         # HashMap<Seq,_>::get(&SeqSlice) needs Seq and SeqSlice to hash and compare by content, and Borrow to be the content view
         core.import_rows(chk, cfg, "C02", "props.C02", ("S-hash", "S-eq", "S-borrow"))
+    # "reports ambiguity / an invalid amino acid / an invalid codon": what each error variant prints is part of the report
+    import json, os
+    for cfg in ctx.configs(need_all_features=True):
+        chk.cfg = cfg.name
+        db = an.one(chk, "S-errtext", cfg.bio, "Display for TranslationError", name="fmt", trait="std::fmt::Display", self_re=r"^translation::TranslationError<A, B>$")
+        if not db:
+            continue
+        tab, why = an.display_table(cfg, db, "translation::TranslationError")
+        if os.environ.get("BSQ_FREEZE_TEXTS") and tab:
+            cur = an.frozen_texts()
+            cur["translation::TranslationError"] = tab
+            json.dump(cur, open(an.TEXT_FILE, "w"), indent=1, sort_keys=True)
+        want = an.frozen_texts().get("translation::TranslationError")
+        if tab is None:
+            chk.cannot("S-errtext", "Display for TranslationError", why, db["span"])
+        elif not want:
+            chk.cannot("S-errtext", "Display for TranslationError", "no frozen message table (oracle/error_texts.json)", db["span"])
+        else:
+            for v in sorted(want):
+                chk.ob("S-errtext", "TranslationError::" + v, tab.get(v) == want[v],
+                       "the message printed for %s is %r with %s; the pinned message is %r with %s" % (v, (tab.get(v) or [None])[0], (tab.get(v) or [None, None])[1], want[v][0], want[v][1]),
+                       db["span"], sample={"variant": v, "text": want[v][0]})
     chk.floor("codon table rows", n, 3 * max(1, len(chk.configs)))
